@@ -259,11 +259,22 @@ func RunNative(bin string, args []string, timeout time.Duration, extraEnv ...str
 		out.End = "deadlock"
 	case cut < len(lines) && strings.HasPrefix(lines[cut], "panic: "):
 		out.End = "panic"
-		msg := strings.TrimPrefix(lines[cut], "panic: ")
+		// With nested panics Go prints "panic: first [recovered]" followed by indented
+		// "\tpanic: second" lines; the last one is the panic that ended the program.
+		start := cut
+		for k := cut + 1; k < len(lines); k++ {
+			if strings.HasPrefix(lines[k], "goroutine ") || strings.HasPrefix(lines[k], "[signal ") {
+				break
+			}
+			if strings.HasPrefix(strings.TrimLeft(lines[k], "\t "), "panic: ") {
+				start = k
+			}
+		}
+		msg := strings.TrimPrefix(strings.TrimLeft(lines[start], "\t "), "panic: ")
 		msg = strings.TrimSuffix(msg, " [recovered]")
 		// multi-line panic messages continue until the blank line before "goroutine N"
-		for _, m := range lines[cut+1:] {
-			if m == "" || strings.HasPrefix(m, "goroutine ") || strings.HasPrefix(m, "[signal ") || strings.HasPrefix(m, "\tpanic: ") {
+		for _, m := range lines[start+1:] {
+			if m == "" || strings.HasPrefix(m, "goroutine ") || strings.HasPrefix(m, "[signal ") {
 				break
 			}
 			msg += "\n" + m
